@@ -188,6 +188,7 @@ package cluster
 //@ func (*ClusterNode).RPCSendShard
 //@   property C14
 //@   arith bv
+//@   requires c.cfg.RpcRetries >= 1
 //@   before OpenFile requires old(args.ChunkIndex) == 0 ==> arg1 & os.O_TRUNC != 0
 //@   before OpenFile requires arg1 & os.O_APPEND != 0 && arg1 & os.O_CREATE != 0
 
@@ -195,10 +196,12 @@ package cluster
 // byte count and reported the checksum of the source file.
 //@ func (*ClusterNode).sendShardFile
 //@   property C14
+//@   requires c.cfg.RpcRetries >= 1
 //@   safety -overflow
 //@   before RemoveAll requires checksum == rpcResp.Checksum && rpcResp.BytesWritten == n
 //@   ensures result == nil ==> ncalls(RemoveAll) == 1
 //@   ensures ncalls(RemoveAll) <= 1
+//@   loop 1 invariant c.cfg.RpcRetries >= 1
 
 // Start-up synchronisation is skipped only by a node that is the sole member of the server list.
 //@ func (*ClusterNode).Sync
@@ -212,6 +215,9 @@ package cluster
 //@ func (*ClusterNode).syncUserCollections$2
 //@   property C14
 //@   before Write requires lastres(RPCSetNodeKeyValue) == nil && rpcResp.Count == len(req.KeyValues)
+
+// The node configuration is read from the config file at start-up and never written afterwards.
+//@ immutable ClusterNode.cfg the only assignment is in NewNode
 
 // ---- internal routing of an RPC (property C17): success is reported only for a completed call ----
 //@ func (Destinationer).Destination
